@@ -676,7 +676,7 @@ let parse_cop (op : string) : cop =
   let r = nat_of_int (match parts with x :: _ when x <> "" -> int_of_string x | _ -> 0) in
   let arg = match parts with _ :: a :: _ -> int_of_string a | _ -> 0 in
   match c with
-  | 'f' -> KFirst r | 'l' -> KLast r | 'c' -> KChild (r, nat_of_int arg) | 's' -> KNext r | 'p' -> KPrev r
+  | 'f' | 'a' -> KFirst r | 'l' | 'z' -> KLast r | 'n' -> KNext r | 'b' -> KPrev r | 'c' -> KChild (r, nat_of_int arg) | 's' -> KNext r | 'p' -> KPrev r
   | 'k' -> KClone r | 'd' -> KDrop r
   | 'S' -> KSet (r, n_of_int arg) | 'T' -> KTrySet (r, n_of_int arg) | 'G' -> KGet r | 'X' -> KClear r
   | _ -> failwith ("bad thread op " ^ op)
